@@ -8,7 +8,7 @@ use plonky2::plonk::circuit_data::CircuitData;
 use plonky2::plonk::proof::{CompressedProofWithPublicInputs, ProofWithPublicInputs};
 use serde_json::Value;
 
-use crate::c03::{at, build_and_prove, class_of, walk};
+use crate::c03::{at, build_and_prove, class_of, class_of_arr, walk};
 use crate::c04::request;
 use crate::dump::*;
 use crate::progs::*;
@@ -41,8 +41,79 @@ fn maps(v: &Value, path: &mut Vec<String>, out: &mut Vec<Vec<String>>) {
     }
 }
 
+/// Parts of a FRI proof that are absorbed AFTER the query answers are fixed (commit-phase caps, final
+/// polynomial): a mutant of those changes the proof-of-work response and the query indices, so the
+/// verifier normally stops at "pow" or at the first Merkle check and never reaches the code behind
+/// them. A prover can re-grind the witness, though. With a one-query configuration the harness does
+/// the same: it searches a `pow_witness` for which the re-derived index is the one the honest proof
+/// answers, so that the mutant gets past pow, Merkle and consistency checks (F-C18-5 was found this
+/// way: a missing commit-phase cap made `verify` index `fri_betas` out of bounds).
+fn reground(e: &mut Emitter, r: &mut Rng, thorough: bool) {
+    use plonky2::field::types::Field;
+    use plonky2::plonk::circuit_data::CircuitConfig;
+    for round in 0..(if thorough { 3 } else { 1 }) {
+        let mut config = CircuitConfig::standard_recursion_config();
+        config.security_bits = 1;
+        config.fri_config.num_query_rounds = 1;
+        config.fri_config.proof_of_work_bits = r.below(2) as u32;
+        config.fri_config.cap_height = r.below(3) as usize;
+        // 2^8 (round 0) .. 2^10 rows: one or two reduction steps of arity 16
+        let n_mul = [3000usize, 9000, 20000][round];
+        let mut ops = vec![Op::Input(r.below(P)), Op::Input(r.below(P))];
+        for i in 0..n_mul { ops.push(Op::Mul(i, i + 1)); }
+        ops.push(Op::Public(n_mul));
+        let prog = Prog { ops, tables: vec![], skip_connect: false };
+        e.stage("building+proving the one-query circuit for re-ground mutants");
+        let Some((data, proof)) = build_and_prove(&prog, &config) else { e.count("inadmissible-config-or-build-panic"); continue; };
+        let data: CircuitData<F, C, 2> = data;
+        e.count(&format!("reground circuit: degree_bits {} arities {:?}", data.common.degree_bits(), data.common.fri_params.reduction_arity_bits));
+        let json = serde_json::to_value(&proof).unwrap();
+        let targets: [&[&str]; 2] = [&["proof", "opening_proof", "commit_phase_merkle_caps"], &["proof", "opening_proof", "final_poly", "coeffs"]];
+        for tpath in targets {
+            let path: Vec<String> = tpath.iter().map(|s| s.to_string()).collect();
+            for surgery in 0..5 {
+                let mut j = json.clone();
+                let Value::Array(xs) = at(&mut j, &path) else { continue };
+                match surgery {
+                    0 => { if xs.is_empty() { continue; } xs.pop(); }
+                    1 => { if xs.is_empty() { continue; } xs.clear(); }
+                    2 => { if xs.is_empty() { continue; } let l = xs.last().unwrap().clone(); xs.push(l); }
+                    3 => { if xs.is_empty() { continue; } let l = xs[0].clone(); for _ in 0..3 { xs.push(l.clone()); } }
+                    _ => { if xs.len() < 2 { continue; } xs.remove(0); }
+                }
+                let Ok(mut p2) = serde_json::from_value::<Pwpi>(j) else { e.count("mutant-not-deserialisable"); continue; };
+                let cls = format!("{} surgery{surgery}", tpath.join("."));
+                let d2 = &data;
+                let mut found = None;
+                e.stage(&format!("impl: re-grinding pow_witness for mutant {cls}"));
+                for w in 0..(1u64 << 14) {
+                    p2.proof.opening_proof.pow_witness = F::from_canonical_u64(w);
+                    let pc = p2.clone();
+                    let res = std::panic::catch_unwind(std::panic::AssertUnwindSafe(|| d2.verify(pc)));
+                    match res {
+                        Ok(Err(err)) => {
+                            let m = err.to_string();
+                            if m.contains("proof of work") || m.contains("Merkle") { continue; }
+                            found = Some("ERR");
+                        }
+                        Ok(Ok(())) => found = Some("OK"),
+                        Err(_) => found = Some("PANIC"),
+                    }
+                    break;
+                }
+                let Some(oc) = found else { e.count(&format!("reground: no witness found for {cls}")); continue; };
+                e.count(&format!("reground {cls} -> {oc}"));
+                if oc == "OK" { e.oracle_failures.push(format!("malformed plain proof (re-ground, {cls}) verified OK")); }
+                if oc == "PANIC" { e.oracle_failures.push(format!("verify PANICS on a malformed proof: re-ground {cls}")); }
+                e.case(&format!("reground {cls}"), request("c18 verify", &data, &p2), || oc.to_string());
+            }
+        }
+    }
+}
+
 pub fn emit(e: &mut Emitter, seed: u64, thorough: bool) {
     let mut r = Rng::new(seed ^ 0x18);
+    reground(e, &mut r, thorough);
     let n_circuits = if thorough { 6 } else { 2 };
     let mut made = 0;
     let mut tries = 0;
@@ -63,7 +134,7 @@ pub fn emit(e: &mut Emitter, seed: u64, thorough: bool) {
         let (mut leaves, mut arrays) = (vec![], vec![]);
         walk(&json, &mut vec![], &mut leaves, &mut arrays);
         let mut by_class: std::collections::BTreeMap<String, Vec<Vec<String>>> = Default::default();
-        for a in arrays { by_class.entry(class_of(&a)).or_default().push(a); }
+        for a in arrays { by_class.entry(class_of_arr(&a)).or_default().push(a); }
         for (cls, als) in &by_class {
             for surgery in 0..5 {
                 let path = r.pick(als).clone();
@@ -81,7 +152,7 @@ pub fn emit(e: &mut Emitter, seed: u64, thorough: bool) {
                 let pc = p2.clone();
                 let oc = outcome(|| d2.verify(pc));
                 if oc == "OK" { e.oracle_failures.push(format!("malformed plain proof (surgery {surgery} on {cls}) verified OK")); }
-                if oc == "PANIC" { e.oracle_failures.push(format!("verify PANICS on a malformed proof: surgery {surgery} on array {}", class_of(&path))); }
+                if oc == "PANIC" { e.oracle_failures.push(format!("verify PANICS on a malformed proof: surgery {surgery} on array {}", class_of_arr(&path))); }
                 e.case(&format!("plain surgery{surgery} {cls}"), request("c18 verify", &data, &p2), || oc.to_string());
             }
         }
@@ -106,7 +177,7 @@ pub fn emit(e: &mut Emitter, seed: u64, thorough: bool) {
             if o2 == "PANIC" { e.oracle_failures.push(format!("decompress PANICS on a malformed compressed proof: {what}")); }
         };
         let mut ca_by_class: std::collections::BTreeMap<String, Vec<Vec<String>>> = Default::default();
-        for a in ca { ca_by_class.entry(class_of(&a)).or_default().push(a); }
+        for a in ca { ca_by_class.entry(class_of_arr(&a)).or_default().push(a); }
         for (cls, als) in &ca_by_class {
             for surgery in 0..3 {
                 let path = r.pick(als).clone();
@@ -141,6 +212,13 @@ pub fn emit(e: &mut Emitter, seed: u64, thorough: bool) {
         let cbytes = cp.to_bytes();
         let mut dec = |e: &mut Emitter, what: &str, b: Vec<u8>, compressed: bool| {
             let cd = &data.common;
+            // an abort (allocation failure) cannot be caught: leave a description of the input behind
+            e.stage(&format!("impl: {}::from_bytes on {what}: {} bytes (valid encoding has {}), differing 8-byte windows vs the valid encoding: {:?}",
+                if compressed { "CompressedProofWithPublicInputs" } else { "ProofWithPublicInputs" }, b.len(),
+                if compressed { cbytes.len() } else { bytes.len() },
+                { let v0 = if compressed { &cbytes } else { &bytes };
+                  (0..b.len().min(v0.len())).step_by(8).filter(|&i| b[i..(i + 8).min(b.len()).min(v0.len())] != v0[i..(i + 8).min(b.len()).min(v0.len())])
+                    .take(4).map(|i| (i, b[i..(i + 8).min(b.len())].to_vec())).collect::<Vec<_>>() }));
             let o = if compressed {
                 outcome(|| Cpwpi::from_bytes(b.clone(), cd).map_err(|x| anyhow::anyhow!("{x:?}")))
             } else {
@@ -148,6 +226,7 @@ pub fn emit(e: &mut Emitter, seed: u64, thorough: bool) {
             };
             e.count(&format!("decode {}: {what} -> {o}", if compressed { "compressed" } else { "plain" }));
             if o == "PANIC" { e.oracle_failures.push(format!("from_bytes PANICS ({} form): {what}, {} bytes", if compressed { "compressed" } else { "plain" }, b.len())); }
+            e.stage("between cases");
             o
         };
         for (b0, compressed) in [(&bytes, false), (&cbytes, true)] {
